@@ -860,6 +860,26 @@ func runC06(c *core.Ctx, i int) {
 		c.Shape(fmt.Sprintf("legal|%d", i%5))
 	case 7: // time / null wrappers and registered codecs with hostile lengths
 		rb := e.rb
+		if i%900 == 7 {
+			// every two-digit zone hour with every two-digit zone minute, either sign, and every value of the
+			// other two-digit fields: digits that are out of range are still digits to a table-driven parser
+			for a := 0; a < 100; a++ {
+				for b := 0; b < 100; b++ {
+					for _, ts := range []string{fmt.Sprintf("2021-03-04T05:06:07+%02d:%02d", a, b), fmt.Sprintf("2021-03-04T05:06:07.5-%02d:%02d", a, b),
+						fmt.Sprintf("2021-%02d-%02dT05:06:07Z", a, b), fmt.Sprintf("2021-03-04T%02d:%02d:07Z", a, b), fmt.Sprintf("2021-03-04T05:%02d:%02dZ", a, b)} {
+						in := append(refavro.AppendLong(nil, int64(len(ts))), ts...)
+						c.Count("timestamp-field-sweep", 1)
+						if _, ok := e.call(c, "time.StringCodec.Read", "timestamp-field-sweep", in, true, 1, func() error {
+							var t avrotimeTime
+							rb.Reset(in)
+							return avrotime.StringCodec{}.Read(rb, unsafe.Pointer(&t))
+						}); !ok {
+							return
+						}
+					}
+				}
+			}
+		}
 		for m := 0; m < nmut; m++ {
 			ts := genRFC3339(r)
 			if m%4 == 0 {
